@@ -509,13 +509,14 @@ class Unit:
                 inserts.append((bo + m.start() + nbo, block_lines(sl)))
             elif kind == 'before-text':
                 # structural anchors preferred; this one keys on the n-th occurrence of the first line's text
-                key = sl[0]['lines'][0][1].strip()
-                occ = [m.start() for m in re.finditer(re.escape(key), body)]
-                k = (nn or 1) - 1
-                if k >= len(occ):
-                    raise Undecided('lost anchor: %s text %r' % (fid, key))
-                ls = [(t, {'kind': 'contract', 'fn': fid, 'tmpl_line': ln}) for ln, t in sl[0]['lines'][1:]]
-                inserts.append((bo + occ[k], ls))
+                for sec_ in sl:
+                    key = sec_['lines'][0][1].strip()
+                    occ = [m.start() for m in re.finditer(re.escape(key), body)]
+                    k = (nn or 1) - 1
+                    if k >= len(occ):
+                        raise Undecided('lost anchor: %s text %r' % (fid, key))
+                    ls = [(t, {'kind': 'contract', 'fn': fid, 'tmpl_line': ln}) for ln, t in sec_['lines'][1:]]
+                    inserts.append((bo + occ[k], ls))
             else:
                 raise Undecided('template error: unknown section %s' % kind)
         # attrs
@@ -670,7 +671,9 @@ def run_verus(path, extra_args, tag, multiple_errors=40):
 
 
 def classify(msg):
-    m = msg.lower()
+    m = msg.lower().replace('post-condition', 'postcondition').replace('pre-condition', 'precondition')
+    if 'loop ensures' in m:
+        return 'invariant'
     if 'postcondition' in m:
         return 'postcondition'
     if 'precondition' in m:
@@ -788,21 +791,26 @@ def analyse(out, res, unit):
                 props = f['safety']
             if f and f.get('sites'):
                 # which occurrence of the call-site text is the failing line?
-                ltxt = out.lines[pl - 1].strip()
-                for st_ in f['sites']:
-                    hit = (ltxt == st_['text']) if st_['exact'] else (st_['text'] in ltxt)
-                    if not hit:
+                done_ = False
+                for sp in [pl] + [x['line_start'] for x in spans]:
+                    if done_ or sp - 1 >= len(out.lines) or not (f['start'] <= sp <= f['end']):
                         continue
-                    occ = 0
-                    for k in range(f['start'] - 1, pl):
-                        if out.origin[k].get('kind') != 'src':
+                    ltxt = out.lines[sp - 1].strip()
+                    for st_ in f['sites']:
+                        hit = (ltxt == st_['text']) if st_['exact'] else (st_['text'] in ltxt)
+                        if not hit:
                             continue
-                        lt = out.lines[k].strip()
-                        if (lt == st_['text']) if st_['exact'] else (st_['text'] in lt):
-                            occ += 1
-                    if occ == st_['n']:
-                        props = st_['props']
-                        break
+                        occ = 0
+                        for k in range(f['start'] - 1, sp):
+                            if out.origin[k].get('kind') != 'src':
+                                continue
+                            lt = out.lines[k].strip()
+                            if (lt == st_['text']) if st_['exact'] else (st_['text'] in lt):
+                                occ += 1
+                        if occ == st_['n']:
+                            props = st_['props']
+                            done_ = True
+                            break
             txt = rx.norm_ws(site[2])[:100] if site else rx.norm_ws(out.lines[pl - 1])[:100]
             key = '%s@%s' % (kind, txt)
         fails.append({'unit': unit.name, 'fn': f['id'] if f else None, 'key': key, 'props': props, 'kind': kind,
@@ -945,7 +953,30 @@ def run_unit(name, canary=True, keep=False):
 
 
 # --------------------------------------------------------------------------------------
+def unit_imports(name, seen=None):
+    seen = seen if seen is not None else set()
+    p = os.path.join(UNITS, name, 'unit.vrs')
+    if not os.path.exists(p):
+        return seen
+    for ln in open(p):
+        if ln.startswith('//@import '):
+            o = ln.split()[1]
+            if o not in seen:
+                seen.add(o)
+                unit_imports(o, seen)
+    return seen
+
+
 def units_for(prop):
+    us = _units_serving(prop)
+    # a unit that imports another re-verifies the imported functions: do not run the imported unit twice
+    covered = set()
+    for u in us:
+        covered |= unit_imports(u)
+    return [u for u in us if u not in covered]
+
+
+def _units_serving(prop):
     us = []
     for d in sorted(os.listdir(UNITS)):
         p = os.path.join(UNITS, d, 'unit.vrs')
